@@ -404,6 +404,40 @@ def replay(case):
                 bad.append(f"JSON gamma {doc['gamma']} != API {api['gamma']}")
         except Exception as ex:     # noqa: BLE001
             bad.append("JSON mode raised " + repr(ex)[:200])
+        if case.get("files", 1) >= 2:
+            # two different input files in one invocation: each file's entry must be its own API result
+            try:
+                src2 = os.path.join(os.path.dirname(src), "annotation_paul_suzann_alex.csv")
+                c2 = pa.Continuum.from_csv(src2)
+                cat2 = None
+                if cd == "levenshtein":
+                    cat2 = pa.LevenshteinCategoricalDissimilarity(c2.categories)
+                elif cd == "numerical":
+                    cat2 = pa.NumericalCategoricalDissimilarity(c2.categories)
+                np.random.seed(17)
+                r1 = pa.Continuum.from_csv(src).compute_gamma(dissimilarity=pa.CombinedCategoricalDissimilarity(alpha=alpha, beta=beta, delta_empty=delta, cat_dissim=cat),
+                                                              precision_level=prec, fast=True, n_samples=n,
+                                                              sampler=pa.ShuffleContinuumSampler() if case.get("mathet") else None)
+                g1 = float(r1.gamma)
+                r2 = c2.compute_gamma(dissimilarity=pa.CombinedCategoricalDissimilarity(alpha=alpha, beta=beta, delta_empty=delta, cat_dissim=cat2),
+                                      precision_level=prec, fast=True, n_samples=n, sampler=pa.ShuffleContinuumSampler() if case.get("mathet") else None)
+                g2 = float(r2.gamma)
+                pj2 = os.path.join(d, "o2.json")
+                argv_keep = list(argv0)
+                argv0.insert(1, src2)
+                try:
+                    run(["-j", pj2])
+                    doc = json.load(open(pj2))
+                    out2 = run([])
+                finally:
+                    argv0[:] = argv_keep
+                if not close(doc[src]["gamma"], g1) or not close(doc[src2]["gamma"], g2):
+                    bad.append(f"two files: JSON gammas {doc[src]['gamma']}, {doc[src2]['gamma']} != API {g1}, {g2}")
+                gs = [float(l.split("=", 1)[1]) for l in out2.splitlines() if l.startswith("gamma=")]
+                if len(gs) != 2 or not close(gs[0], g1) or not close(gs[1], g2):
+                    bad.append(f"two files: printed gammas {gs} != API {[g1, g2]}")
+            except Exception as ex:     # noqa: BLE001
+                bad.append("two-file run raised " + repr(ex)[:200])
         try:
             pc = os.path.join(d, "o.csv")
             run(["-o", pc])
